@@ -59,10 +59,8 @@ func parseClusterNodes(data string) (map[string]*instance, error) {
 			continue
 		}
 
-		// attach slots to master node
-		if len(fields) < 9 {
-			return nil, errInvalidClusterNodes
-		}
+		// attach slots to master node; a master may own no slot at all (a node that
+		// has just joined, or a failed master whose slots went to its replica).
 		slots, err := parseClusterNodesSlot(fields[8:])
 		if err != nil {
 			return nil, err
